@@ -1,9 +1,47 @@
-(* Properties_C01.v — statements are added as the proofs land (see DESIGN.md). *)
+(* Properties_C01.v — C01: Marshal then Unmarshal returns the original value.
+   Statements only; proofs in RoundTripProof.v (object layer, token level).
+   Together with the codec theorems — C02: the CBOR decoder reads the encoder's
+   bytes back as the same tokens (canonical spelling of non-negative integers),
+   C03/C05: the JSON decoder reads the encoder's text back as the normalised
+   tokens — this is the end-to-end statement; the byte-level composition is
+   checked on every case by the roundtrip suite.
+
+   [wt] is well-typedness (integers in range of their kind, float32 values
+   representable, array lengths, distinct map keys); [req] is equality up to
+   what the wire cannot carry, exactly the list in the property:
+     req_ptr_null / req_any_null : null has no shape (a pointer or slot whose content serializes as null comes back nil)
+     req_struct                  : omitted-as-empty fields come back empty (nil vs empty under omitempty)
+     req_any_num / req_any_f32   : the concrete numeric Go type inside untyped slots
+   and nothing else: scalars, strings, byte strings, slices, arrays, maps (as sets of entries) are equal. *)
 From Coq Require Import List ZArith.
-Require Import Tok GoVal Marshal Unmarshal.
+Require Import Tok GoVal Marshal Unmarshal ObjProof RoundTripProof.
 Import ListNotations.
 Open Scope Z_scope.
 
+(* atlases of struct-map entries (renamed / ignored / omitempty fields, embedded routes, tags);
+   untyped slots hold what an untyped slot can hold natively, or values of tagged types *)
+Theorem C01_token_roundtrip : forall E A t v f ts,
+  atlas_wf E A = true -> wt E A t v -> domb E A t v = true -> marshal A f t v = MOk ts ->
+  exists f' v', unmarshal E A f' t (zero 50 E t) ts = UOk v' [] /\ req E A t v v' /\ wt E A t v'.
+Proof. exact token_roundtrip. Qed.
+Print Assumptions C01_token_roundtrip.
+
+(* ... whatever follows the item in the stream, and for every larger fuel *)
+Theorem C01_token_roundtrip_general : forall E A t v f ts,
+  atlas_wf E A = true -> wt E A t v -> domb E A t v = true -> marshal A f t v = MOk ts ->
+  exists v', req E A t v v' /\ wt E A t v' /\
+    (exists F, forall f' rest, (F <= f')%nat -> unmarshal E A f' t (zero 50 E t) (ts ++ rest) = UOk v' rest) /\
+    (omit_ok A = true -> rmv v = true -> forall f'', (f <= f'')%nat -> marshal A f'' t v' = MOk ts).
+Proof. exact roundtrip_general. Qed.
+
+(* without atlas entries (scalars, byte strings and arrays, slices, arrays, string-keyed maps, pointers, named types) *)
+Theorem C01_token_roundtrip_plain : forall E mode t v f ts,
+  plain_type t = true -> wt E (Atlas [] mode) t v -> marshal (Atlas [] mode) f t v = MOk ts ->
+  exists f' v', unmarshal E (Atlas [] mode) f' t (zero 50 E t) ts = UOk v' [] /\ req E (Atlas [] mode) t v v'.
+Proof. exact roundtrip_stage1. Qed.
+Print Assumptions C01_token_roundtrip_plain.
+
+(* kernel-evaluated instance *)
 Example C01_token_roundtrip_example :
   let A := Atlas [AE (GStruct 100) (Some 7) (EStruct [FE [107] [0%nat] (GPtr (GNum I8)) true false; FE [118] [1%nat] (GSlice GStr) false false])] 0 in
   let E := [(100, [GPtr (GNum I8); GSlice GStr])] in
